@@ -158,6 +158,12 @@ M = [
  ("sync responder buffer size from a constant", 'simple-mdns/src/sync_discovery/simple_responder.rs', "        let mut recv_buffer = [0u8; 9000];", "        const MAX: usize = 9000;\n        let mut recv_buffer = [0u8; MAX];", 'untied:mdns.service_shape'),
  ("HARMLESS: the arms of From<QTYPE> for u16 in another order", D + 'mod.rs', "            QTYPE::TYPE(ty) => ty.into(),\n            QTYPE::IXFR => 251,\n            QTYPE::AXFR => 252,", "            QTYPE::AXFR => 252,\n            QTYPE::IXFR => 251,\n            QTYPE::TYPE(ty) => ty.into(),", 'checks'),
  ("HARMLESS: the arms of from_records in another order", 'simple-mdns/src/instance_information.rs', "                simple_dns::rdata::RData::A(a) => {\n                    ip_addresses.insert(std::net::Ipv4Addr::from(a.address).into());\n                }\n                simple_dns::rdata::RData::AAAA(aaaa) => {\n                    ip_addresses.insert(std::net::Ipv6Addr::from(aaaa.address).into());\n                }\n", "                simple_dns::rdata::RData::AAAA(aaaa) => {\n                    ip_addresses.insert(std::net::Ipv6Addr::from(aaaa.address).into());\n                }\n                simple_dns::rdata::RData::A(a) => {\n                    ip_addresses.insert(std::net::Ipv4Addr::from(a.address).into());\n                }\n", 'checks'),
+ ("character-string: one octet more demanded", D + 'character_string.rs', "length + *position + 1 > data.len()", "length + *position + 2 > data.len()", 'fail:charstr_codec_source'),
+ ("character-string: the last octet of the data not usable", D + 'character_string.rs', "length + *position + 1 > data.len()", "length + *position + 1 >= data.len()", 'fail:charstr_codec_source'),
+ ("character-string: new refuses 255 octets", D + 'character_string.rs', "        if data.len() > MAX_CHARACTER_STRING_LENGTH {", "        if data.len() >= MAX_CHARACTER_STRING_LENGTH {", 'fail:charstr_codec_source'),
+ ("character-string: cursor advanced by the length only", D + 'character_string.rs', "        *position += length + 1;", "        *position += length;\n        *position += 1;", 'untied:charstr.codec'),
+ ("build_bytes_vec_compressed keeps a scratch buffer", D + 'packet.rs', "        let mut out = Cursor::new(Vec::with_capacity(900));\n        self.write_compressed_to(&mut out)?;\n\n        Ok(out.into_inner())", "        thread_local!(static SCRATCH: std::cell::RefCell<Vec<u8>> = std::cell::RefCell::new(Vec::new()));\n        SCRATCH.with(|s| { let mut out = Cursor::new(std::mem::take(&mut *s.borrow_mut())); self.write_compressed_to(&mut out)?; let v = out.into_inner(); *s.borrow_mut() = v.clone(); Ok(v) })", 'untied:packet.entry_points'),
+ ("HARMLESS: build_bytes_vec with another initial capacity", D + 'packet.rs', "        let mut out = Cursor::new(Vec::with_capacity(900));\n\n        self.write_to(&mut out)?;", "        let mut out = Cursor::new(Vec::with_capacity(512));\n\n        self.write_to(&mut out)?;", 'checks'),
  ("mdns refresh in millis", 'simple-mdns/src/resource_record_manager.rs', 'added + Duration::from_secs(ttl / 2)', 'added + Duration::from_millis(ttl / 2)', 'untied:mdns.expiration'),
 ]
 
